@@ -5,3 +5,5 @@ package main
 func c17extra(s *c17state, in []byte) {}
 
 func c17cut(s *c17state, ev []byte, k int) {}
+
+func c17consumers(s *c17state, in []byte) {}
